@@ -260,6 +260,36 @@ def run(chk):
         chk.case(nontrivial_key=("invalid", e, "seqs2-non-string") if st == "error" else None)
         if st == "ok":
             chk.violation(f"C10|{e}|seqs2-non-string|not-rejected", f"{e} accepted a non-string element in seqs2", {"engine": e})
+    # a non-string element ANYWHERE in either collection, whatever the two lengths (front / tail of the longer one, tail of the shorter one)
+    long_ = ["CAAA", "CADA", "CAAK", "CDDD", "CAAF"]
+    short_ = ["CAAA", "CADA"]
+    for e in ("symdel", "nearest_neighbor"):
+        for bad in (5, float("nan"), b"CAAA", None):
+            for where, s1, s2 in (("seqs2-tail-longer", short_, long_[:-1] + [bad]), ("seqs-tail-longer", long_[:-1] + [bad], short_),
+                                  ("seqs2-tail-shorter", long_, short_[:-1] + [bad]), ("seqs-tail-shorter", short_[:-1] + [bad], long_),
+                                  ("seqs2-front", short_, [bad] + long_[1:]), ("seqs2-middle-equal-lengths", long_, long_[:2] + [bad] + long_[3:])):
+                for cont in (list, tuple):
+                    st, val = core.call_real(lambda: fns[e](cont(s1), max_edits=1, seqs2=cont(s2)))
+                    chk.case(nontrivial_key=("invalid", e, where, repr(bad), cont.__name__) if st == "error" else None)
+                    chk.count("invalid:two-collections-non-string")
+                    if st == "ok":
+                        chk.violation(f"C10|{e}|{where}|non-string-not-rejected", f"{e} accepted the non-string element {bad!r} ({where}, {cont.__name__}) "
+                                      f"and returned {str(val)[:60]}", {"engine": e, "where": where, "element": repr(bad), "container": cont.__name__})
+    # the output format is chosen by the VALUE of output_type: strings built at run time (config files, str.lower(), np.str_) are
+    # equal to the literals without being the same objects
+    for e in ENGINES:
+        base_t = core.call_real(lambda: core.canon_trips(fns[e](good, max_edits=1)))
+        for nm, ot in (("joined", "".join(["trip", "lets"])), ("lowered", "TRIPLETS".lower()), ("np.str_", np.str_("triplets")), ("sliced", "xtriplets"[1:])):
+            r_ = core.call_real(lambda: fns[e](good, max_edits=1, output_type=ot))
+            chk.case(nontrivial_key=("runtime-output-type", e, nm))
+            chk.count("format:runtime-string")
+            if r_[0] != "ok" or not isinstance(r_[1], list) or ("ok", core.canon_trips(r_[1])) != base_t:
+                chk.violation(f"C10|{e}|output_type-{nm}|differs", f"{e}(output_type=<'triplets' built at run time: {nm}>) returned "
+                              f"{type(r_[1]).__name__ if r_[0] == 'ok' else r_} instead of the triplet list", {"engine": e, "how": nm})
+        for nm, ot, typ in (("joined-ndarray", "".join(["nd", "array"]), np.ndarray),):
+            r_ = core.call_real(lambda: fns[e](good, max_edits=1, output_type=ot))
+            if r_[0] != "ok" or not isinstance(r_[1], typ):
+                chk.violation(f"C10|{e}|output_type-{nm}|differs", f"{e}(output_type=<'ndarray' built at run time>) returned {str(r_)[:80]}", {"engine": e, "how": nm})
     # unclassified by the property (either outcome accepted): np.int64 as max_edits
     st, _ = core.call_real(lambda: nn.symdel(good, max_edits=np.int64(1)))
     chk.notes.append(f"unclassified: symdel(max_edits=np.int64(1)) -> {st}")
